@@ -302,6 +302,7 @@ def run_check(pid: str, tier: str, verif_seed: int, runs: int | None, workers: i
         by_sig.setdefault(tuple(sig), []).append((kind, index, msg, plan))
     known_seen = Counter()
     n_viol = 0
+    reported = 0
     for sig, items in sorted(by_sig.items()):
         f = match_finding(findings, pid, sig)
         if f is not None:
@@ -319,7 +320,11 @@ def run_check(pid: str, tier: str, verif_seed: int, runs: int | None, workers: i
             rc = 2
             continue
         unmin = write_replay(pid, plan, sig, r.log.digest(), msg, directory="replays/unminimised")
-        small, execs = core.minimise(plan, sig, prop.execute, prop.candidates)
+        reported += 1
+        if reported <= 6:
+            small, execs = core.minimise(plan, sig, prop.execute, prop.candidates)
+        else:
+            small, execs = plan, 0   # many distinct signatures: only the first six are minimised (bounded report time)
         r2 = prop.execute(small)
         path = write_replay(pid, small, sig, r2.log.digest(), next(v.msg for v in r2.violations if v.sig == sig))
         code, outp = fresh_replay(pid, path)
